@@ -1214,7 +1214,7 @@ class Interp:
         raise Unsupported(f"'in' on {type(container).__name__}")
 
     def truth(self, st, v) -> bool:
-        if isinstance(v, SOpt):
+        if isinstance(v, (SOpt, V.SCases)):
             v = st.force(v)
         if isinstance(v, bool):
             return v
